@@ -282,6 +282,7 @@ func c15Read(run *ev.Run, env *c15Env, p c15P, reuse bmc.SensorReader) bmc.Senso
 		desc += " (second read on a used reader)"
 	}
 	env.sd.Set(byte(p.LUN), byte(p.Number), []byte{byte(p.Raw), byte(p.Flags), 0x00})
+	run.Event("sensor-reads-served", 1)
 	nreq := len(env.sd.Requests)
 	ctx, cancel := bg(10 * time.Second)
 	var got float64
